@@ -520,6 +520,14 @@ func checkMetafile(st *Stats, label string, p *L.Project) bool {
 	if strings.Join(gotEP, "\n") != strings.Join(wEP, "\n") {
 		fail("metafile-entry-points-differ", "entryPoint-set", gotEP, wEP)
 	}
+	// inputs: every listed import resolves to an input, and inputs is the closure from the entry points
+	{
+		starts := entryPointsOf(root)
+		for _, in := range p.Opt.Inject {
+			starts = append(starts, inKey(in))
+		}
+		checkInputsClosure(fail, root, starts)
+	}
 	// inputs: exactly the files read, with exact sizes and their resolved imports
 	var gotIn, wantIn []string
 	for _, k := range ins.keys {
